@@ -109,6 +109,19 @@ def cont_check(dimkind, case, rec):
     with scratch():
         fn = "cont." + case["fmt"]
         cont.as_meshio(combined=False).write(fn)
+        # combined export (default): one block per cell type with the members' cells in member order
+        fn2 = "comb." + case["fmt"]
+        cont.as_meshio().write(fn2)
+        cc = fem.mesh.read(fn2, dim=dim)
+        per_type = {}
+        for m1 in meshes:
+            per_type.setdefault(m1.cell_type, []).append(np.asarray(cont.points)[np.asarray(cont.meshes[meshes.index(m1)].cells)])
+        rec.require("combined:one-block-per-type", sorted(m_.cell_type for m_ in cc.meshes) == sorted(per_type), [[m_.cell_type for m_ in cc.meshes], sorted(per_type)])
+        for m_ in cc.meshes:
+            if m_.cell_type in per_type:
+                refc = np.vstack(per_type[m_.cell_type])
+                gotc = np.asarray(cc.points)[np.asarray(m_.cells)]
+                rec.close("combined:cell-corner-positions", float(np.abs(gotc - refc).max()) if gotc.shape == refc.shape else float("inf"), 1e-15, {"type": m_.cell_type})
         # single cell blocks selected by their index (the first one, index 0, included)
         npts_file = sum(m.npoints for m in meshes)
         for i_, m1 in enumerate(meshes):
